@@ -16,4 +16,6 @@ def convForwarderRecovers : Bool := true
 def childForwarderRecovers : Bool := true
 /-- `internalError.Error()` keeps the text it rendered first (false: rendered from the current fields) -/
 def errorTextMemoised : Bool := false
+/-- at both drain sites of `runner.run` the classification error of the drained tasks is checked -/
+def drainedTaskErrorChecked : Bool := true
 end EinoV.Expected.C13
